@@ -271,8 +271,12 @@ class TrI(Tr):
     raises: result type is `gres T` (GOk / GRaise "ExceptionClass") instead of T
     """
 
-    def __init__(self, names=None, calls=None, consts=None, atoms=(), ratoms=(), skip=(), octets=(), raises=False):
+    def __init__(self, names=None, calls=None, consts=None, atoms=(), ratoms=(), skip=(), octets=(), raises=False,
+                 fields=None, hashobjs=(), lists=None):
         super().__init__(names, calls, consts, raises)
+        self.fields = dict(fields or {})      # 'self.s2k.usage' -> (coq name, type): attributes that are assigned, tracked like locals
+        self.hashobjs = set(hashobjs)         # local names holding a hashlib object (modelled as the octets fed to it so far)
+        self.lists = dict(lists or {})        # source text of an iterable -> (coq term : list Z, element type)
         self.atoms = [(tpl(a[0]),) + tuple(a[1:]) for a in atoms]
         self.ratoms = [(tpl(a[0]),) + tuple(a[1:]) for a in ratoms]
         self.skip = {s: 0 for s in skip}
@@ -281,6 +285,12 @@ class TrI(Tr):
         self.noho = 0           # > 0 inside a short-circuit operand / conditional-expression arm: hoisting is not sound there
         self.cache = {}
         self.fresh = 0
+
+    def key(self, e):
+        if isinstance(e, ast.Attribute):
+            u = ast.unparse(e)
+            if u in self.fields: return u
+        return super().key(e)
 
     # ----- opaque atoms -----
     def find_atom(self, e):
@@ -323,10 +333,16 @@ class TrI(Tr):
 
     def octet_list(self, l):
         if not isinstance(l, ast.List): raise Unsupported('bytearray([...]) of a non-literal list')
+        out = []
         for x in l.elts:
-            if self.typ(x) != 'Z' or not self.is_octet(x):
-                raise Unsupported('list element not known to be an octet (bytearray([..]) may raise ValueError): ' + ast.unparse(x)[:40])
-        return '[' + '; '.join(self.expr(x) for x in l.elts) + ']'
+            if self.typ(x) != 'Z': raise Unsupported('bytearray([..]) of a non-integer')
+            if self.is_octet(x):
+                out.append(self.expr(x))
+            else:
+                # bytearray([v]) raises ValueError unless 0 <= v < 256
+                v = self.expr(x)
+                out.append(self.hoist(x, '(if andb (Z.leb 0 %s) (Z.ltb %s 256) then Some %s else None)' % (v, v, v), 'ValueError'))
+        return '[' + '; '.join(out) + ']'
 
     # ----- types -----
     def typ(self, e):
@@ -394,6 +410,16 @@ class TrI(Tr):
                 return '(if %s then %s else %s)' % (c, self.expr(e.body), self.expr(e.orelse))
             finally:
                 self.noho -= 1
+        if isinstance(e, ast.Compare) and len(e.ops) == 1 and isinstance(e.ops[0], (ast.In, ast.NotIn)) \
+                and isinstance(e.comparators[0], ast.Name) and self.typ(e.comparators[0]) == 'dict':
+            # k in d for a dict d with integer keys (an association list)
+            if self.typ(e.left) != 'Z': raise Unsupported('dict key of type ' + self.typ(e.left))
+            s = '(zhas %s %s)' % (self.expr(e.left), self.expr(e.comparators[0]))
+            return s if isinstance(e.ops[0], ast.In) else '(negb %s)' % s
+        if isinstance(e, ast.Subscript) and isinstance(e.value, ast.Name) and self.typ(e.value) == 'dict':
+            # d[k]: KeyError when absent
+            if isinstance(e.slice, ast.Slice) or self.typ(e.slice) != 'Z': raise Unsupported('dict subscript')
+            return self.hoist(e, '(zassoc %s %s)' % (self.expr(e.slice), self.expr(e.value)), 'KeyError')
         if isinstance(e, ast.Subscript) and self.typ(e.value) == 'bytes':
             v = self.expr(e.value)
             if isinstance(e.slice, ast.Slice):
@@ -445,6 +471,7 @@ class TrI(Tr):
 
     # ----- statements -----
     def cname(self, n):
+        if n in self.fields: return self.fields[n][0]
         return n + '_' if n in RESERVED or re.fullmatch(r'h\d+_', n) else n
 
     def ret(self, s):
@@ -452,7 +479,10 @@ class TrI(Tr):
 
     def wrap(self, pend, body):
         for v, opt, exc in reversed(pend):
-            body = '(match %s with Some %s => %s | None => GRaise "%s"%%string end)' % (opt, v, body, exc)
+            if exc is None:   # the term is itself gres-valued: its exception propagates
+                body = '(match %s with GOk %s => %s | GRaise e_ => GRaise e_ end)' % (opt, v, body)
+            else:
+                body = '(match %s with Some %s => %s | None => GRaise "%s"%%string end)' % (opt, v, body, exc)
         return body
 
     def simple(self, fn):
@@ -485,9 +515,10 @@ class TrI(Tr):
             for n in ast.walk(s):
                 t = None
                 if isinstance(n, ast.Assign) and len(n.targets) == 1 and isinstance(n.targets[0], ast.Name): t = n.targets[0].id
+                elif isinstance(n, ast.Assign) and len(n.targets) == 1 and ast.unparse(n.targets[0]) in self.fields: t = ast.unparse(n.targets[0])
                 elif isinstance(n, ast.AugAssign) and isinstance(n.target, ast.Name): t = n.target.id
                 elif isinstance(n, ast.Expr) and isinstance(n.value, ast.Call) and isinstance(n.value.func, ast.Attribute) \
-                        and n.value.func.attr in ('append', 'extend') and isinstance(n.value.func.value, ast.Name): t = n.value.func.value.id
+                        and n.value.func.attr in ('append', 'extend', 'update') and isinstance(n.value.func.value, ast.Name): t = n.value.func.value.id
                 elif isinstance(n, ast.Delete):
                     for x in n.targets:
                         if isinstance(x, ast.Subscript) and isinstance(x.value, ast.Name) and x.value.id not in out: out.append(x.value.id)
@@ -535,6 +566,64 @@ class TrI(Tr):
             v = ast.BinOp(left=ast.Name(id=s.target.id, ctx=ast.Load()), op=s.op, right=s.value)
             a = ast.fix_missing_locations(ast.copy_location(ast.Assign(targets=[s.target], value=v), s))
             return self.block([a] + rest, k)
+        if isinstance(s, ast.Assign) and len(s.targets) == 1 and isinstance(s.targets[0], ast.Attribute) \
+                and ast.unparse(s.targets[0]) in self.fields:
+            # obj.attr = value for a declared attribute: tracked like a local (no setter semantics beyond the declared type)
+            fk = ast.unparse(s.targets[0])
+            cn, ft = self.fields[fk][:2]
+            def f():
+                t, v = self.typ(s.value), self.expr(s.value)
+                if len(self.fields[fk]) > 2:
+                    # declared setter semantics: the stored value is (option term over the assigned value), else the exception
+                    fmt, exc = self.fields[fk][2:4]
+                    v = self.hoist(s, fmt.format(v), exc)
+                return t, v
+            (t, v), pend = self.simple(f)
+            if t != ft: raise Unsupported('field %s: %s vs %s' % (fk, t, ft))
+            saved = self.names.get(fk)
+            self.names[fk] = (cn, ft)
+            try:
+                body = self.block(rest, k)
+            finally:
+                if saved is None: del self.names[fk]
+                else: self.names[fk] = saved
+            return self.wrap(pend, '(let %s := %s in\n %s)' % (cn, v, body))
+        if isinstance(s, ast.Expr) and isinstance(s.value, ast.Call) and isinstance(s.value.func, ast.Attribute) \
+                and s.value.func.attr == 'update' and isinstance(s.value.func.value, ast.Name) \
+                and s.value.func.value.id in self.hashobjs and len(s.value.args) == 1 and not s.value.keywords:
+            # h.update(b): the hash object is the concatenation of what it was fed
+            n = s.value.func.value.id
+            if n not in self.names or self.names[n][1] != 'bytes': raise Unsupported('update of ' + n)
+            a = s.value.args[0]
+            def f():
+                if self.typ(a) != 'bytes': raise Unsupported('update with non-bytes')
+                return self.expr(a)
+            v, pend = self.simple(f)
+            return self.bind(n, 'bytes', '(%s ++ %s)' % (self.names[n][0], v), rest, k, pend)
+        if isinstance(s, ast.For) and not s.orelse and isinstance(s.target, ast.Name) and ast.unparse(s.iter) in self.lists:
+            # for x in <opaque list>: body rebinding locals (no return / raise / break)  ->  fold_left over the list
+            if has_exit(s.body) or any(isinstance(n, (ast.Break, ast.Continue)) for b in s.body for n in ast.walk(b)):
+                raise Unsupported('loop body with return / raise / break / continue')
+            lst, et = self.lists[ast.unparse(s.iter)]
+            acc = [v for v in self.assigned(s.body) if v in self.names]
+            if not acc or any(v == s.target.id for v in acc): raise Unsupported('loop accumulators')
+            x = s.target.id
+            saved = self.names.get(x)
+            self.names[x] = (self.cname(x), et)
+            types = {v: self.names[v][1] for v in acc}
+            def kf():
+                for v in acc:
+                    if v not in self.names or self.names[v][1] != types[v]: raise Unsupported('loop changes the type of ' + v)
+                return '(' + ', '.join(self.names[v][0] for v in acc) + ')'
+            try:
+                body = self.block(s.body, kf)
+            finally:
+                if saved is None: del self.names[x]
+                else: self.names[x] = saved
+            tup = '(' + ', '.join(self.names[v][0] for v in acc) + ')'
+            pat = self.names[acc[0]][0] if len(acc) == 1 else "'" + tup
+            fold = '(fold_left (fun st_ %s => let %s := st_ in %s) %s %s)' % (self.cname(x), pat, body, lst, tup)
+            return '(let %s := %s in\n %s)' % (pat, fold, self.block(rest, k))
         if isinstance(s, ast.Expr) and isinstance(s.value, ast.Call) and isinstance(s.value.func, ast.Attribute) \
                 and s.value.func.attr == 'append' and isinstance(s.value.func.value, ast.Name) \
                 and len(s.value.args) == 1 and not s.value.keywords:
@@ -1036,6 +1125,11 @@ Definition py_from (n : Z) (l : bytes) : bytes := skipn (py_index n (length l)) 
 (* l[a:b] *)
 Definition py_slice (a b : Z) (l : bytes) : bytes :=
   firstn (py_index b (length l) - py_index a (length l)) (skipn (py_index a (length l)) l).
+
+(* dict with integer keys and values: association list in source order; d[k] (None = KeyError), k in d *)
+Fixpoint zassoc (k : Z) (d : list (Z * Z)) : option Z :=
+  match d with [] => None | (k', v) :: r => if Z.eqb k k' then Some v else zassoc k r end.
+Definition zhas (k : Z) (d : list (Z * Z)) : bool := match zassoc k d with Some _ => true | None => false end.
 """
 
 HDR2 = """(* GENERATED by tools/py2coq.py from %s -- do not edit; regenerated on every run *)
@@ -1055,8 +1149,93 @@ def enum_members(tree, cls):
     c = find_class(tree, cls)
     out = {}
     for (cn, nm), v in class_int_consts(c).items():
-        if not nm.startswith('_'): out[nm] = v
+        if not (nm.startswith('_') and nm.endswith('_')) and not nm.startswith('_' + cls): out[nm] = v
     return out
+
+
+# block_size (bits) of the cipher classes of the `cryptography` library that SymmetricKeyAlgorithm.cipher names.
+# Library knowledge, not PGPy source: the correspondence run of C03 / C06 / C13 compares all 256 ids at run time.
+LIB_BLOCK_BITS = {'algorithms.IDEA': 64, 'algorithms.TripleDES': 64, 'algorithms.CAST5': 64, 'algorithms.Blowfish': 64,
+                  'algorithms.AES': 128, 'algorithms.Camellia': 128}
+
+
+def zlist(vals):
+    return '[' + '; '.join(str(v) for v in vals) + ']'
+
+
+# ---------- targets: pgpy/constants.py, tables ----------
+def gen_tables():
+    tree = parse('pgpy/constants.py')
+    out = [HDR2 % ('pgpy/constants.py (enum member lists, size tables)', '')]
+
+    for cls in ('SymmetricKeyAlgorithm', 'PubKeyAlgorithm', 'HashAlgorithm', 'String2KeyType', 'CompressionAlgorithm',
+                'SignatureType', 'S2KGNUExtension'):
+        def t_enum(cls=cls):
+            c = find_class(tree, cls)
+            if [ast.unparse(b) for b in c.bases] != ['IntEnum']: raise Unsupported(cls + ' is not an IntEnum')
+            m = enum_members(tree, cls)
+            if not m: raise Unsupported(cls + ': no members')
+            if len(set(m.values())) != len(m): raise Unsupported(cls + ': aliases')
+            return '(* %s(v) succeeds exactly for these values *)\nDefinition gen_members_%s : list Z := %s.\n' % (cls, cls, zlist(m.values()))
+        guarded(out, 'enum ' + cls, t_enum)
+
+    sym = find_class(tree, 'SymmetricKeyAlgorithm')
+    consts = class_int_consts(sym)
+
+    def table_fn(prop, dname, tname, fname, valfn):
+        """property of shape   d = {Member: value, ...};  if self in d: return d[self];  raise NotImplementedError(repr(self))
+        the dict literal becomes the association list <tname>, the rest is translated over it"""
+        fn = find_method(sym, prop)
+        body = [s for s in fn.body if not (isinstance(s, ast.Expr) and isinstance(s.value, ast.Constant))]
+        d = body[0]
+        if not (isinstance(d, ast.Assign) and len(d.targets) == 1 and isinstance(d.targets[0], ast.Name) and d.targets[0].id == dname
+                and isinstance(d.value, ast.Dict)):
+            raise Unsupported('%s: first statement is not %s = {...}' % (prop, dname))
+        tr = TrI(names={'self': ('a', 'Z')}, consts=consts, raises=True)
+        keys = []
+        for kk in d.value.keys:
+            if kk is None or tr.typ(kk) != 'Z': raise Unsupported('%s: dict key' % prop)
+            keys.append(int(tr.expr(kk).strip('()')))
+        if len(set(keys)) != len(keys): raise Unsupported('%s: duplicate dict key' % prop)
+        vals = [valfn(v) for v in d.value.values]
+        tr.names[dname] = (tname, 'dict')
+        txt = tr.block(body[1:])
+        return ('Definition %s : list (Z * Z) := [%s].\nDefinition %s (a : Z) : gres Z :=\n %s.\n'
+                % (tname, '; '.join('(%d, %d)' % kv for kv in zip(keys, vals)), fname, txt))
+
+    def intval(v):
+        if isinstance(v, ast.Constant) and isinstance(v.value, int) and not isinstance(v.value, bool): return v.value
+        raise Unsupported('table value ' + ast.unparse(v)[:40])
+
+    def blockval(v):
+        u = ast.unparse(v)
+        if u in LIB_BLOCK_BITS: return LIB_BLOCK_BITS[u]
+        m = re.fullmatch(r"namedtuple\('\w+', \['block_size'\]\)\(block_size=(\d+)\)", u)
+        if m: return int(m.group(1))
+        raise Unsupported('cipher class ' + u[:60])
+
+    guarded(out, 'SymmetricKeyAlgorithm.key_size',
+            lambda: '(* SymmetricKeyAlgorithm.key_size (bits) *)\n' + table_fn('key_size', 'ks', 'gen_sym_key_size_table', 'gen_sym_key_size', intval))
+
+    def t_block():
+        fn = find_method(sym, 'block_size')
+        if [ast.unparse(s) for s in fn.body] != ['return self.cipher.block_size']: raise Unsupported('block_size body changed')
+        return ('(* SymmetricKeyAlgorithm.block_size = self.cipher.block_size (bits): the cipher table with each `cryptography` class\n'
+                '   replaced by its block_size (LIB_BLOCK_BITS in py2coq.py) *)\n'
+                + table_fn('cipher', 'bs', 'gen_sym_block_size_table', 'gen_sym_block_size', blockval))
+    guarded(out, 'SymmetricKeyAlgorithm.block_size', t_block)
+
+    def t_gen():
+        res = []
+        for nm, sz in (('gen_iv', 'block_size'), ('gen_key', 'key_size')):
+            fn = find_method(sym, nm)
+            if [ast.unparse(s) for s in fn.body] != ['return os.urandom(self.%s // 8)' % sz]: raise Unsupported(nm + ' body changed')
+        res.append('(* gen_iv / gen_key: os.urandom(self.block_size // 8) / os.urandom(self.key_size // 8) -- the divisor *)\n'
+                   'Definition gen_sym_octet_divisor : Z := 8.\n')
+        return '\n'.join(res)
+    guarded(out, 'SymmetricKeyAlgorithm.gen_iv/gen_key', t_gen)
+
+    write('Gen_tables.v', '\n'.join(out))
 
 
 # ---------- targets: pgpy/pgp.py ----------
@@ -1105,6 +1284,318 @@ def gen_pgp():
     write('Gen_pgp.v', '\n'.join(out))
 
 
+def pinned(stmts, want, what):
+    """the statements that are NOT translated around a translated slice are compared with their recorded text"""
+    got = [ast.unparse(s) for s in stmts if not (isinstance(s, ast.Expr) and isinstance(s.value, ast.Constant))]
+    if got != want:
+        for i, (g, w) in enumerate(zip(got + [None] * len(want), want + [None] * len(got))):
+            if g != w: raise Unsupported('%s: untranslated statement %d changed: %r' % (what, i, (g or '<missing>')[:90]))
+
+
+def strip_doc(stmts):
+    return [s for s in stmts if not (isinstance(s, ast.Expr) and isinstance(s.value, ast.Constant) and isinstance(s.value.value, str))]
+
+
+def ret_stmt(src):
+    return ast.parse('def f():\n return ' + src).body[0].body[0]
+
+
+def sym_atoms(var):
+    """SymmetricKeyAlgorithm-valued variable `var`: its size properties are the translated tables of Gen_tables.v"""
+    return [('%s.key_size' % var, '(gen_sym_key_size %s)' % var, 'Z', [], None),
+            ('%s.block_size' % var, '(gen_sym_block_size %s)' % var, 'Z', [], None)]
+
+
+# ---------- targets: pgpy/packet/packets.py ----------
+def gen_packets():
+    tree = parse('pgpy/packet/packets.py')
+    ctree = parse('pgpy/constants.py')
+    out = [HDR2 % ('pgpy/packet/packets.py', ' PV.Gen.Gen_tables')]
+    pka = class_int_consts(find_class(ctree, 'PubKeyAlgorithm'))
+    pkesk = find_class(tree, 'PKESessionKeyV3')
+    seipd = find_class(tree, 'IntegrityProtectedSKEDataV1')
+
+    def t_encrypt_sk():
+        fn = find_method(pkesk, 'encrypt_sk')
+        if [a.arg for a in fn.args.args] != ['self', 'pk', 'symalg', 'symkey']: raise Unsupported('encrypt_sk signature changed')
+        body = strip_doc(fn.body)
+        pinned(body[3:], ["if self.pkalg == PubKeyAlgorithm.RSAEncryptOrSign:\n    encrypter = pk.keymaterial.__pubkey__().encrypt\n"
+                          "    encargs = (bytes(m), padding.PKCS1v15())\nelif self.pkalg == PubKeyAlgorithm.ECDH:\n    encrypter = pk\n"
+                          "    encargs = (bytes(m),)\nelse:\n    raise NotImplementedError(self.pkalg)",
+                          'self.ct = self.ct.encrypt(encrypter, *encargs)', 'self.update_hlen()'], 'encrypt_sk')
+        tr = TrI(names={'symalg': ('symalg', 'Z'), 'symkey': ('symkey', 'bytes')}, calls=I2B, ratoms=sym_atoms('symalg'), raises=True)
+        txt = tr.block(body[:3] + [ret_stmt('m')])
+        return ('(* PKESessionKeyV3.encrypt_sk: the value m handed to the public-key primitive (the dispatch on self.pkalg that\n'
+                '   follows is pinned text: RSA gets bytes(m) with PKCS#1 v1.5, ECDH gets bytes(m)) *)\n'
+                'Definition gen_pkesk_m (symalg : Z) (symkey : bytes) : gres bytes :=\n %s.\n' % txt)
+    guarded(out, 'PKESessionKeyV3.encrypt_sk', t_encrypt_sk)
+
+    def t_decrypt_sk():
+        fn = find_method(pkesk, 'decrypt_sk')
+        if [a.arg for a in fn.args.args] != ['self', 'pk']: raise Unsupported('decrypt_sk signature changed')
+        body = strip_doc(fn.body)
+        disp = body[0]
+        if not (isinstance(disp, ast.If) and ast.unparse(disp.test) == 'self.pkalg == PubKeyAlgorithm.RSAEncryptOrSign'):
+            raise Unsupported('decrypt_sk: dispatch changed')
+        pinned(disp.body[2:], ['decrypter = pk.keymaterial.__privkey__().decrypt', 'decargs = (ct, padding.PKCS1v15())'], 'decrypt_sk RSA branch')
+        pinned(disp.orelse, ['if self.pkalg == PubKeyAlgorithm.ECDH:\n    decrypter = pk\n    decargs = ()\nelse:\n    raise NotImplementedError(self.pkalg)'],
+               'decrypt_sk dispatch')
+        pinned(body[1:2], ['m = bytearray(self.ct.decrypt(decrypter, *decargs))'], 'decrypt_sk')
+        tr0 = TrI(calls=I2B, atoms=[('self.ct.me_mod_n.to_mpibytes()', 'mpib', 'bytes', []),
+                                    ('pk.keymaterial.__privkey__().key_size', 'key_bits', 'Z', [])])
+        pad = tr0.block(disp.body[:2] + [ret_stmt('ct')])
+        mem = '(if existsb (Z.eqb {0}) gen_members_SymmetricKeyAlgorithm then Some {0} else None)'
+        tr = TrI(names={'m': ('m', 'bytes')}, calls=I2B, raises=True,
+                 ratoms=[('SymmetricKeyAlgorithm(_1)', mem, 'Z', ['Z'], 'ValueError')] + sym_atoms('symalg'))
+        txt = tr.block(body[2:])
+        return ('(* PKESessionKeyV3.decrypt_sk, RSA branch: the ciphertext octets handed to RSA decryption\n'
+                '   (mpib = self.ct.me_mod_n.to_mpibytes(), key_bits = the private key\'s key_size) *)\n'
+                'Definition gen_rsa_ct_padded (mpib : bytes) (key_bits : Z) : bytes :=\n %s.\n\n'
+                '(* PKESessionKeyV3.decrypt_sk after  m = bytearray(self.ct.decrypt(...)) : algorithm octet, key, checksum test *)\n'
+                'Definition gen_pkesk_open (m : bytes) : gres (Z * bytes) :=\n %s.\n' % (pad, txt))
+    guarded(out, 'PKESessionKeyV3.decrypt_sk', t_decrypt_sk)
+
+    sha1 = ("hashlib.new('SHA1', _1).digest()", '(sha1 {0})', 'bytes', ['bytes'])
+
+    def t_seipd():
+        res = ['Section Seipd.\n'
+               '(* opaque: SHA-1; CFB with a zero IV under (algorithm, key) -- None = _encrypt / _decrypt raised;\n'
+               '   hexlify = binascii.hexlify; mdc_emit = MDC.__bytes__() as a function of the value assigned to mdc.mdc *)\n'
+               'Variable sha1 : bytes -> bytes.\nVariable cfb_enc cfb_dec : Z -> bytes -> bytes -> option bytes.\n'
+               'Variable hexlify : bytes -> bytes.\nVariable mdc_emit : bytes -> bytes.\n']
+        fn = find_method(seipd, 'encrypt')
+        if [a.arg for a in fn.args.args] != ['self', 'key', 'alg', 'data']: raise Unsupported('encrypt signature changed')
+        body = strip_doc(fn.body)
+        if not body or ast.unparse(body[-1]) != 'self.update_hlen()' or not ast.unparse(body[-2]).startswith('self.ct = '):
+            raise Unsupported('encrypt: tail changed')
+        tr = TrI(names={'data': ('data', 'bytes'), 'key': ('key', 'bytes'), 'alg': ('alg', 'Z')}, raises=True,
+                 atoms=[('alg.gen_iv()', 'iv0', 'bytes', []), sha1, ('binascii.hexlify(_1)', '(hexlify {0})', 'bytes', ['bytes']),
+                        ('mdc.__bytes__()', '(mdc_emit mdc_mdc)', 'bytes', [])],
+                 ratoms=[('_encrypt(_1, _2, alg)', '(cfb_enc alg {1} {0})', 'bytes', ['bytes', 'bytes'], '_encrypt')],
+                 fields={'mdc.mdc': ('mdc_mdc', 'bytes')}, skip=['mdc = MDC()', 'mdc.update_hlen()'])
+        txt = tr.block(body[:-2] + [ast.copy_location(ast.Return(value=body[-2].value), body[-2])])
+        tr.finish()
+        res.append('(* IntegrityProtectedSKEDataV1.encrypt: the value assigned to self.ct; iv0 = alg.gen_iv() *)\n'
+                   'Definition gen_seipd_encrypt (key : bytes) (alg : Z) (data iv0 : bytes) : gres bytes :=\n %s.\n' % txt)
+        fn = find_method(seipd, 'decrypt')
+        if [a.arg for a in fn.args.args] != ['self', 'key', 'alg']: raise Unsupported('decrypt signature changed')
+        tr = TrI(names={'key': ('key', 'bytes'), 'alg': ('alg', 'Z'), 'self.ct': ('ct', 'bytes')}, raises=True,
+                 atoms=[sha1, ('constant_time.bytes_eq(_1, _2)', '(eqb_bytes {0} {1})', 'bool', ['bytes', 'bytes'])],
+                 ratoms=[('_decrypt(_1, _2, alg)', '(cfb_dec alg {1} {0})', 'bytes', ['bytes', 'bytes'], '_decrypt')] + sym_atoms('alg'))
+        txt = tr.block(strip_doc(fn.body))
+        res.append('(* IntegrityProtectedSKEDataV1.decrypt; ct = self.ct *)\n'
+                   'Definition gen_seipd_decrypt (key : bytes) (alg : Z) (ct : bytes) : gres bytes :=\n %s.\n' % txt)
+        res.append('End Seipd.\n')
+        return '\n'.join(res)
+    guarded(out, 'IntegrityProtectedSKEDataV1.encrypt/decrypt', t_seipd)
+
+    def t_fpr():
+        pk4 = find_class(tree, 'PubKeyV4')
+        fn = find_method(pk4, 'fingerprint')
+        tr = TrI(names={'self.pkalg': ('pkalg', 'Z')}, calls=I2B, hashobjs=['fp'],
+                 atoms=[("hashlib.new('sha1')", '[]', 'bytes', []), ('self.keymaterial.publen()', 'publen', 'Z', []),
+                        ('calendar.timegm(self.created.utctimetuple())', 'created', 'Z', []),
+                        ('self.keymaterial.__bytearray__()', 'kmat', 'bytes', []),
+                        ('Fingerprint(fp.hexdigest().upper())', '(sha1 fp)', 'bytes', [])])
+        txt = tr.block(strip_doc(fn.body))
+        return ('(* PubKeyV4.fingerprint as octets (the method returns them as upper-case hex in a Fingerprint): the hashlib object is the\n'
+                '   concatenation of the octets it was fed; publen = keymaterial.publen(), created = timegm(created), kmat =\n'
+                '   keymaterial.__bytearray__() *)\n'
+                'Definition gen_fingerprint (sha1 : bytes -> bytes) (publen created pkalg : Z) (kmat : bytes) : bytes :=\n %s.\n' % txt)
+    guarded(out, 'PubKeyV4.fingerprint', t_fpr)
+
+    def memfmt(cls):
+        return '(if existsb (Z.eqb {0}) gen_members_%s then Some {0} else None)' % cls
+
+    def t_ops():
+        ops = find_class(tree, 'OnePassSignatureV3')
+        # setter semantics declared below are those of the pinned setter bodies
+        pinned(find_method(ops, 'sigtype_int').body, ['self._sigtype = SignatureType(val)'], 'OnePassSignatureV3.sigtype setter')
+        pinned(find_method(ops, 'pubalg_int').body[:1], ['self._pubalg = PubKeyAlgorithm(val)'], 'OnePassSignatureV3.pubalg setter')
+        pinned(find_method(ops, 'halg_int').body, ['try:\n    self._halg = HashAlgorithm(val)\nexcept ValueError:\n    self._halg = val'],
+               'OnePassSignatureV3.halg setter')
+        for cls in ('SignatureType', 'PubKeyAlgorithm', 'HashAlgorithm'):
+            if not all(0 <= v < 256 for v in enum_members(ctree, cls).values()): raise Unsupported(cls + ' member outside the octet range')
+        fn = find_method(ops, '__bytearray__')
+        tr = TrI(names={'self.sigtype': ('sigtype', 'Z'), 'self.halg': ('halg', 'Z'), 'self.pubalg': ('pubalg', 'Z'), 'self.nested': ('nested', 'bool')},
+                 octets=['sigtype', 'halg', 'pubalg'],
+                 atoms=[('super(OnePassSignatureV3, self).__bytearray__()', 'hdr', 'bytes', []),
+                        ("binascii.unhexlify(self.signer.encode('latin-1'))", 'keyid', 'bytes', [])])
+        emit = tr.block(strip_doc(fn.body))
+        fn = find_method(ops, 'parse')
+        tr = TrI(names={'packet': ('packet', 'bytes')}, raises=True, skip=['super(OnePassSignatureV3, self).parse(packet)'],
+                 fields={'self.sigtype': ('sigtype', 'Z', memfmt('SignatureType'), 'ValueError'), 'self.halg': ('halg', 'Z'),
+                         'self.pubalg': ('pubalg', 'Z', memfmt('PubKeyAlgorithm'), 'ValueError'),
+                         'self.signer': ('signer', 'bytes'), 'self.nested': ('nested', 'bool')})
+        prs = tr.block(strip_doc(fn.body) + [ret_stmt('(self.sigtype, self.halg, self.pubalg, self.signer, self.nested, packet)')])
+        tr.finish()
+        return ('(* OnePassSignatureV3.__bytearray__: hdr = the versioned header octets, keyid = unhexlify(self.signer); sigtype halg pubalg\n'
+                '   are enum members (octets) *)\n'
+                'Definition gen_ops_emit (hdr : bytes) (sigtype halg pubalg : Z) (keyid : bytes) (nested : bool) : bytes :=\n %s.\n\n'
+                '(* OnePassSignatureV3.parse after the header (super().parse is pinned text): the attribute values assigned and the rest of\n'
+                '   the buffer.  Setters (pinned): sigtype -> SignatureType(v), pubalg -> PubKeyAlgorithm(v) raise ValueError for a non-member;\n'
+                '   halg keeps any value; signer keeps the 8 octets (as hex) *)\n'
+                'Definition gen_ops_parse (packet : bytes) : gres (Z * Z * Z * bytes * bool * bytes) :=\n %s.\n' % (emit, prs))
+    guarded(out, 'OnePassSignatureV3.__bytearray__/parse', t_ops)
+
+    def t_lit():
+        lit = find_class(tree, 'LiteralData')
+        latin = ("_1.encode('latin-1')", '(if forallb byteb {0} then Some {0} else None)', 'bytes', ['bytes'], 'UnicodeEncodeError')
+        fn = find_method(lit, '__bytearray__')
+        tr = TrI(names={'self.format': ('fmt', 'bytes'), 'self.filename': ('fname', 'bytes'), 'self._contents': ('contents', 'bytes')},
+                 calls=I2B, raises=True, ratoms=[latin],
+                 atoms=[('super(LiteralData, self).__bytearray__()', 'hdr', 'bytes', []),
+                        ('calendar.timegm(self.mtime.utctimetuple())', 'mtime0', 'Z', [])])
+        emit = tr.block(strip_doc(fn.body))
+        fn = find_method(lit, 'parse')
+        tr = TrI(names={'packet': ('packet', 'bytes')}, raises=True, skip=['super(LiteralData, self).parse(packet)'],
+                 fields={'self.format': ('fmt', 'bytes'), 'self.filename': ('fname', 'bytes'), 'self.mtime': ('mtime', 'bytes'),
+                         'self._contents': ('contents', 'bytes')},
+                 atoms=[('chr(_1)', '[{0}]', 'bytes', ['Z']), ("_1.decode('latin-1')", '{0}', 'bytes', ['bytes']),
+                        ('self.header.length', 'hlen', 'Z', [])])
+        prs = tr.block(strip_doc(fn.body) + [ret_stmt('(self.format, self.filename, self.mtime, self._contents, packet)')])
+        tr.finish()
+        return ('(* LiteralData.__bytearray__: text = list of code points (encode(\'latin-1\') raises UnicodeEncodeError above 255);\n'
+                '   fmt = self.format, fname = self.filename, mtime0 = timegm(self.mtime), hdr = the header octets *)\n'
+                'Definition gen_lit_emit (hdr fmt fname : bytes) (mtime0 : Z) (contents : bytes) : gres bytes :=\n %s.\n\n'
+                '(* LiteralData.parse after the header (super().parse is pinned text): the values assigned to format, filename, mtime (the\n'
+                '   four octets handed to the setter), _contents, and the rest of the buffer; hlen = self.header.length *)\n'
+                'Definition gen_lit_parse (hlen : Z) (packet : bytes) : gres (bytes * bytes * bytes * bytes * bytes) :=\n %s.\n' % (emit, prs))
+    guarded(out, 'LiteralData.__bytearray__/parse', t_lit)
+
+    write('Gen_packets.v', '\n'.join(out))
+
+
+# ---------- targets: pgpy/packet/fields.py ----------
+def gen_fields():
+    tree = parse('pgpy/packet/fields.py')
+    ctree = parse('pgpy/constants.py')
+    out = [HDR2 % ('pgpy/packet/fields.py', ' PV.Gen.Gen_types PV.Gen.Gen_ptypes PV.Gen.Gen_tables')]
+
+    def t_eckdf():
+        fn = find_method(find_class(tree, 'ECKDF'), 'derive_key')
+        if [a.arg for a in fn.args.args] != ['self', 's', 'curve', 'pkalg', 'fingerprint']: raise Unsupported('derive_key signature changed')
+        body = strip_doc(fn.body)
+        pinned(body[-2:], ["ckdf = ConcatKDFHash(algorithm=getattr(hashes, self.halg.name)(), length=self.encalg.key_size // 8, "
+                           "otherinfo=bytes(data), backend=default_backend())", 'return ckdf.derive(s)'], 'ECKDF.derive_key')
+        tr = TrI(names={'pkalg': ('pkalg', 'Z'), 'self.halg': ('halg', 'Z'), 'self.encalg': ('encalg', 'Z')},
+                 octets=['pkalg', 'halg', 'encalg'],
+                 atoms=[('encoder.encode(curve.value)', 'oid_der', 'bytes', []),
+                        ("binascii.unhexlify(fingerprint.replace(' ', ''))", 'fpr', 'bytes', [])])
+        txt = tr.block(body[:-2] + [ret_stmt('data')])
+        return ('(* ECKDF.derive_key: the otherinfo block handed to ConcatKDFHash (the two KDF statements are pinned text);\n'
+                '   oid_der = DER encoding of the curve OID, fpr = the fingerprint octets; pkalg halg encalg are enum members (octets) *)\n'
+                'Definition gen_ecdh_param (oid_der : bytes) (pkalg halg encalg : Z) (fpr : bytes) : bytes :=\n %s.\n' % txt)
+    guarded(out, 'ECKDF.derive_key', t_eckdf)
+
+    priv = find_class(tree, 'PrivKey')
+    s2kt = class_int_consts(find_class(ctree, 'String2KeyType'))
+
+    def t_keyblob():
+        res = ['Section KeyBlob.\n'
+               '(* opaque: SHA-1; CFB of cipher alg under key, iv; String2Key.derive_key as a function of the S2K fields it reads\n'
+               '   (specifier, hash, cipher, salt, coded count) and the passphrase *)\n'
+               'Variable sha1 : bytes -> bytes.\nVariable cfb_enc cfb_dec : Z -> bytes -> bytes -> bytes -> bytes.\n'
+               'Variable s2k : Z -> Z -> Z -> bytes -> Z -> bytes -> bytes.\n']
+        fn = find_method(priv, 'decrypt_keyblob')
+        sha = ("hashlib.new('sha1', _1).digest()", '(sha1 {0})', 'bytes', ['bytes'])
+        tr = TrI(names={'passphrase': ('pass', 'bytes'), 'self.encbytes': ('encbytes', 'bytes')}, calls=I2B, raises=True,
+                 atoms=[('self.s2k.usage', 'usage', 'Z', []), sha,
+                        ('self.s2k.derive_key(passphrase)', '(s2k spec halg alg salt count pass)', 'bytes', []),
+                        ('_decrypt(_1, _2, self.s2k.encalg, bytes(self.s2k.iv))', '(cfb_dec alg {1} iv {0})', 'bytes', ['bytes', 'bytes'])],
+                 skip=['if not self.s2k:\n    return'])
+        txt = tr.block(strip_doc(fn.body))
+        tr.finish()
+        res.append('(* PrivKey.decrypt_keyblob (the `if not self.s2k: return` guard is pinned text): usage alg spec halg salt count iv =\n'
+                   '   the fields of self.s2k, encbytes = self.encbytes *)\n'
+                   'Definition gen_decrypt_keyblob (usage alg spec halg : Z) (salt : bytes) (count : Z) (iv encbytes pass : bytes) : gres bytes :=\n %s.\n' % txt)
+        fn = find_method(priv, 'encrypt_keyblob')
+        if [a.arg for a in fn.args.args] != ['self', 'passphrase', 'enc_alg', 'hash_alg']: raise Unsupported('encrypt_keyblob signature changed')
+        F = {'self.s2k.usage': ('s_usage', 'Z'), 'self.s2k.encalg': ('s_encalg', 'Z'), 'self.s2k.specifier': ('s_spec', 'Z'),
+             'self.s2k.iv': ('s_iv', 'bytes'), 'self.s2k.halg': ('s_halg', 'Z'), 'self.s2k.salt': ('s_salt', 'bytes'),
+             'self.s2k.count': ('s_count', 'Z'), 'self.encbytes': ('s_encbytes', 'bytes')}
+        tr = TrI(names={'passphrase': ('pass', 'bytes'), 'enc_alg': ('enc_alg', 'Z'), 'hash_alg': ('hash_alg', 'Z')}, consts=s2kt,
+                 fields=F, lists={'self.__privfields__': ('privs', 'Z')},
+                 atoms=[('enc_alg.gen_iv()', 'iv0', 'bytes', []), ('bytearray(os.urandom(8))', 'salt0', 'bytes', []),
+                        ('hash_alg.tuned_count', 'count0', 'Z', []), sha,
+                        ('getattr(self, pf).to_mpibytes()', '(gen_to_mpibytes pf)', 'bytes', []),
+                        ('self.s2k.derive_key(passphrase)', '(s2k s_spec s_halg s_encalg s_salt s_count pass)', 'bytes', []),
+                        ('_encrypt(_1, _2, enc_alg, _3)', '(cfb_enc enc_alg {1} {2} {0})', 'bytes', ['bytes', 'bytes', 'bytes'])],
+                 skip=['self.clear()'])
+        txt = tr.block(strip_doc(fn.body) + [ret_stmt('(self.s2k.usage, self.s2k.encalg, self.s2k.specifier, self.s2k.halg, '
+                                                      'self.s2k.salt, self.s2k.count, self.s2k.iv, self.encbytes)')])
+        tr.finish()
+        res.append('(* PrivKey.encrypt_keyblob: the S2K fields and self.encbytes after the call (self.clear() is pinned text);\n'
+                   '   privs = the values of the private fields in __privfields__ order (the loop variable stands for getattr(self, pf)),\n'
+                   '   iv0 / salt0 = the two random draws, count0 = hash_alg.tuned_count *)\n'
+                   'Definition gen_encrypt_keyblob (pass : bytes) (enc_alg hash_alg : Z) (privs : list Z) (iv0 salt0 : bytes) (count0 : Z)\n'
+                   '  : Z * Z * Z * Z * bytes * Z * bytes * bytes :=\n %s.\n' % txt)
+        res.append('End KeyBlob.\n')
+        return '\n'.join(res)
+    guarded(out, 'PrivKey.decrypt_keyblob/encrypt_keyblob', t_keyblob)
+
+    write('Gen_fields.v', '\n'.join(out))
+
+
+# ---------- targets: pgpy/pgp.py, cleartext framework constants ----------
+def text_lit(s):
+    return '[' + '; '.join(str(ord(c)) for c in s) + ']'
+
+
+def str_const(e, what):
+    if isinstance(e, ast.Constant) and isinstance(e.value, str): return e.value
+    raise Unsupported(what + ': not a string literal')
+
+
+def gen_cleartext():
+    tree = parse('pgpy/pgp.py')
+    out = [HDR % 'pgpy/pgp.py (PGPMessage.dash_escape / dash_unescape / __str__): text = list of code points']
+    msg = find_class(tree, 'PGPMessage')
+
+    def t_dash():
+        res = []
+        for nm in ('dash_escape', 'dash_unescape'):
+            fn = find_method(msg, nm)
+            if [a.arg for a in fn.args.args] != ['text'] or [ast.unparse(d) for d in fn.decorator_list] != ['staticmethod']:
+                raise Unsupported(nm + ': signature changed')
+            body = strip_doc(fn.body)
+            if len(body) != 1 or not isinstance(body[0], ast.Return): raise Unsupported(nm + ': body shape')
+            env = {}
+            if not tmatch(tpl('re.subn(_1, _2, text, flags=re.MULTILINE)[0]'), body[0].value, env):
+                raise Unsupported(nm + ': not re.subn(PATTERN, REPLACEMENT, text, flags=re.MULTILINE)[0]')
+            res.append('(* %s: re.subn(%r, %r, text, flags=re.MULTILINE)[0] *)' % (nm, str_const(env['_1'], nm), str_const(env['_2'], nm)))
+            res.append('Definition gen_%s_pattern : list Z := %s.' % (nm, text_lit(str_const(env['_1'], nm))))
+            res.append('Definition gen_%s_repl : list Z := %s.' % (nm, text_lit(str_const(env['_2'], nm))))
+            res.append('Definition gen_%s_multiline : bool := true.\n' % nm)
+        return '\n'.join(res)
+    guarded(out, 'PGPMessage.dash_escape/dash_unescape', t_dash)
+
+    def t_str():
+        fn = find_method(msg, '__str__')
+        body = strip_doc(fn.body)
+        if len(body) != 2 or not isinstance(body[0], ast.If) or ast.unparse(body[0].test) != "self.type == 'cleartext'" or body[0].orelse:
+            raise Unsupported('__str__: shape')
+        pinned(body[1:], ['return super(PGPMessage, self).__str__()'], '__str__')
+        b = strip_doc([x for x in body[0].body])
+        if len(b) != 4: raise Unsupported('__str__: cleartext branch has %d statements' % len(b))
+        if not (isinstance(b[0], ast.Assign) and ast.unparse(b[0].targets[0]) == 'tmpl'): raise Unsupported('__str__: tmpl')
+        tmpl = str_const(b[0].value, 'tmpl')
+        pinned(b[1:2], ['hashes = set((s.hash_algorithm.name for s in self.signatures))'], '__str__ hashes')
+        env = {}
+        if not (isinstance(b[2], ast.Assign) and ast.unparse(b[2].targets[0]) == 'hhdr'
+                and tmatch(tpl("_1.format(hashes=_2.join(sorted(hashes))) if hashes else _3"), b[2].value, env)):
+            raise Unsupported('__str__: hhdr expression changed')
+        pinned(b[3:], ['return tmpl.format(hhdr=hhdr, cleartext=self.dash_escape(self.bytes_to_text(self._message)), '
+                       'signature=super(PGPMessage, self).__str__())'], '__str__ return')
+        return ('(* PGPMessage.__str__, cleartext branch: the template, the Hash: line format, the separator, the empty case *)\n'
+                'Definition gen_cleartext_template : list Z := %s.\nDefinition gen_hash_header_format : list Z := %s.\n'
+                'Definition gen_hash_header_join : list Z := %s.\nDefinition gen_hash_header_empty : list Z := %s.\n'
+                % (text_lit(tmpl), text_lit(str_const(env['_1'], 'hhdr')), text_lit(str_const(env['_2'], 'join')),
+                   text_lit(str_const(env['_3'], 'empty'))))
+    guarded(out, 'PGPMessage.__str__', t_str)
+    write('Gen_cleartext.v', '\n'.join(out))
+
+
 def write(name, txt):
     os.makedirs(OUT, exist_ok=True)
     p = os.path.join(OUT, name)
@@ -1115,7 +1606,8 @@ def write(name, txt):
 
 
 GENS = [('gen_types', 'Gen_types.v'), ('gen_ptypes', 'Gen_ptypes.v'), ('gen_consts', 'Gen_consts.v'),
-        ('gen_base', 'Gen_base.v'), ('gen_pgp', 'Gen_pgp.v')]
+        ('gen_base', 'Gen_base.v'), ('gen_pgp', 'Gen_pgp.v'), ('gen_tables', 'Gen_tables.v'),
+        ('gen_packets', 'Gen_packets.v'), ('gen_fields', 'Gen_fields.v'), ('gen_cleartext', 'Gen_cleartext.v')]
 
 
 def main():
